@@ -453,6 +453,13 @@ def run(chk):
     chk.guard('C05.W', check_wrapper, chk)
     chk.guard('C05.E', check_escape, chk)
     chk.guard('C05.V', check_value_domain, chk)
+    # evaluations whose 'raises' outcomes are host exceptions reaching the API (shared): the operator table on operands of every type incl. a 400-digit int, and the
+    # include resolver on references with regex / path metacharacters
+    from . import c03, c17
+    chk.rule('C03.T', 'shared with C03: no operator raises on any pair of sample operands (incl. an arbitrary-precision int with a float)')
+    c03.check_operator_table(chk, keep=lambda text: False)
+    chk.rule('C17.U', 'shared with C17: url_file_relative never raises on references with backslashes / regex metacharacters')
+    chk.guard('C17.U', c17.check_url_file_relative_sim, chk)
     chk.rule('C05.K', 'objects produced by the library have string keys only (no None rest key from csv.DictReader)')
     if chk.guard('C05.K', check_object_keys_sim, chk):
         chk.advisory('C05.K', check_object_keys, chk)
